@@ -62,3 +62,66 @@ external("asyncio.events.get_event_loop")(_get_loop)
 external("asyncio.get_event_loop")(_get_loop)
 external("_asyncio.get_running_loop")(_get_loop)
 external("_asyncio.get_event_loop")(_get_loop)
+
+
+# ---------------------------------------------------------------------------
+# asyncio primitives (assumed contracts, DESIGN 2.5)
+# ---------------------------------------------------------------------------
+from pyvc.asyncrule import ShieldAwait, SleepAwait, TaskAwait, WaitForAwait
+from pyvc.withs import TimeoutCM
+
+
+def _timeout(I, args, kwargs):
+    (t,) = args if args else (kwargs.get("delay"),)
+    return TimeoutCM(t)
+
+
+external("asyncio.timeouts.timeout")(_timeout)
+external("async_timeout.timeout")(_timeout)
+
+
+@external("asyncio.tasks.shield")
+def _(I, args, kwargs):
+    return ShieldAwait(args[0])
+
+
+@external("asyncio.tasks.sleep")
+def _(I, args, kwargs):
+    return SleepAwait(args[0])
+
+
+@external("asyncio.tasks.wait_for")
+def _(I, args, kwargs):
+    return WaitForAwait(args[0], args[1] if len(args) > 1 else kwargs.get("timeout"))
+
+
+@external("bellows.ash.create_eager_task")
+def _(I, args, kwargs):
+    # eager start: the coroutine runs up to its first suspension inside the call; modelled as being
+    # awaited at the await of the task (no other code of the caller runs in between at the call sites
+    # under contract, which await the task immediately)
+    return TaskAwait(args[0])
+
+
+@external("asyncio.tasks.create_task")
+def _(I, args, kwargs):
+    I.ctx.emit("asyncio.create_task", None, (args[0],), {})
+    return TaskAwait(args[0])
+
+
+@external("zigpy.types.named.BaseDataclassMixin.replace")
+def _(I, args, kwargs):
+    """dataclasses.replace on a frozen dataclass instance: a new instance with the given fields changed"""
+    from pyvc.values import SObj
+    import dataclasses
+
+    (obj,) = args
+    if not isinstance(obj, SObj):
+        return dataclasses.replace(obj, **kwargs)
+    names = {f.name for f in dataclasses.fields(obj.cls)}
+    for k in kwargs:
+        if k not in names:
+            from pyvc.interp import PyRaise, mk_exc
+
+            raise PyRaise(mk_exc(TypeError, f"unexpected field {k}"))
+    return SObj(obj.cls, {**obj.fields, **kwargs}, frozen=obj.frozen)
